@@ -1,6 +1,6 @@
 (* C13: the closed-form estimate of _estimate_alpha_beta (weights normalised at the point of use) is THE
    weighted least-squares line for every positive weight vector and invariant under rescaling the weights. *)
-From Coq Require Import Reals List Lra Psatz.
+From Coq Require Import Reals List Lra Psatz Permutation.
 From V.base Require Import Num.
 From V.model Require Import EwLsq.
 Import ListNotations.
@@ -109,6 +109,25 @@ Proof.
   intros Hne Hw HD. pose proof (S1_pos l Hne Hw) as H1.
   pose proof (estimate_is_general l) as G. destruct (estimate RN l) as [[[ah bh] dd] dv].
   destruct G as [A [B _]]; [lra|lra|]. rewrite A, B. apply regression_optimal; assumption.
+Qed.
+
+(* ---- the estimate depends on the observations (w_i, p*_i, x*_i) only as a multiset: any reordering of the triples (array weights travel
+   with their observation) gives the same (a_hat, b_hat, dividend, divisor); which p* an observation gets is the argsort contract *)
+Lemma sumf_perm (f : obsR -> R) l l' : Permutation l l' -> sumf f l = sumf f l'.
+Proof.
+  intros H. induction H as [|o l l' _ IH|o1 o2 l|l l' l'' _ IH1 _ IH2]; unfold sumf in *; cbn [fold_right].
+  - reflexivity.
+  - rewrite IH. reflexivity.
+  - ring.
+  - congruence.
+Qed.
+
+Theorem estimate_order_invariant l l' : Permutation l l' -> estimate RN l = estimate RN l'.
+Proof.
+  intros H. unfold estimate. rewrite !est_code_sums.
+  assert (Hn : Permutation (normalise RN l) (normalise RN l')).
+  { unfold normalise. rewrite !sum_map. rewrite (sumf_perm _ _ _ H). apply Permutation_map. exact H. }
+  unfold Sp, Sx, Spx, Spp. rewrite !(sumf_perm _ _ _ Hn). reflexivity.
 Qed.
 
 (* invariance under rescaling the weights *)
